@@ -294,7 +294,7 @@ func (r *rig) realWalk(full bool) outcome {
 			if childDir != nil {
 				var cm *mnode
 				if m != nil {
-					cm = m.children[e.name]
+					cm = r.get(m, e.name)
 				}
 				if full || (cm != nil && cm.kind == kindDir && cm.visited) {
 					walk(childDir, cm, prefix+"/"+e.name)
@@ -325,7 +325,7 @@ func (r *rig) modelWalk(full bool) outcome {
 		}
 		r.touch(n)
 		for _, name := range n.names() {
-			c := n.children[name]
+			c := r.get(n, name)
 			line := prefix + "/" + name + " " + c.renderFull()
 			if c.kind == kindFile && full {
 				if c.cas && r.badContent[c.content] != "" && len(c.data) > 0 {
@@ -349,12 +349,13 @@ func (r *rig) modelWalk(full bool) outcome {
 	return outcome{code: code, detail: strings.Join(lines, "\n")}
 }
 
-func isPrefix(prefix, p []string) bool {
+// isPrefix compares paths component-wise after name normalization.
+func (r *rig) isPrefix(prefix, p []string) bool {
 	if len(prefix) > len(p) {
 		return false
 	}
 	for i := range prefix {
-		if prefix[i] != p[i] {
+		if r.norm(prefix[i]) != r.norm(p[i]) {
 			return false
 		}
 	}
@@ -403,13 +404,13 @@ func (r *rig) predict(st *step) (outcome, func(got outcome)) {
 			return io, nil
 		}
 		for _, e := range r.spec.Dirs[root].Entries {
-			if d.children[e.Name] != nil {
+			if r.get(d, e.Name) != nil {
 				return outcome{code: "exist"}, nil
 			}
 		}
 		return outcome{code: "ok"}, func(outcome) {
 			for _, e := range r.spec.Dirs[root].Entries {
-				d.children[e.Name] = r.nodeFromEntry(e)
+				r.put(d, e.Name, r.nodeFromEntry(e))
 			}
 			d.occ1 = root + 1
 			r.occExpanded[root]++
@@ -420,7 +421,7 @@ func (r *rig) predict(st *step) (outcome, func(got outcome)) {
 	if !ok {
 		return io, nil
 	}
-	c := d.children[st.Name]
+	c := r.get(d, st.Name)
 	kindCode := func(c *mnode) string {
 		switch {
 		case c == nil:
@@ -443,11 +444,11 @@ func (r *rig) predict(st *step) (outcome, func(got outcome)) {
 		return outcome{code: "ok", detail: c.renderFull()}, nil
 	case "readdir":
 		items := map[string]string{}
-		for name, c := range d.children {
+		for _, c := range d.children {
 			if st.BD && st.Flags == 0 {
-				items[name] = c.renderInfo()
+				items[c.name] = c.renderInfo()
 			} else {
-				items[name] = c.renderFull()
+				items[c.name] = c.renderFull()
 			}
 		}
 		return outcome{code: "ok", detail: renderListing(items)}, nil
@@ -489,7 +490,7 @@ func (r *rig) predict(st *step) (outcome, func(got outcome)) {
 			return outcome{code: "exist"}, nil
 		}
 		return outcome{code: "ok"}, func(outcome) {
-			d.children[st.Name] = &mnode{kind: kindFile, exec: st.Exec, data: []byte(st.Data)}
+			r.put(d, st.Name, &mnode{kind: kindFile, exec: st.Exec, data: []byte(st.Data)})
 			r.noteMod(st)
 		}
 	case "write":
@@ -568,7 +569,7 @@ func (r *rig) predict(st *step) (outcome, func(got outcome)) {
 			return outcome{code: "exist"}, nil
 		}
 		return outcome{code: "ok"}, func(outcome) {
-			d.children[st.Name] = &mnode{kind: kindDir, tmpl: -1, expanded: true, visited: true, children: map[string]*mnode{}}
+			r.put(d, st.Name, &mnode{kind: kindDir, tmpl: -1, expanded: true, visited: true, children: map[string]*mnode{}})
 			r.noteMod(st)
 		}
 	case "symlink":
@@ -576,7 +577,7 @@ func (r *rig) predict(st *step) (outcome, func(got outcome)) {
 			return outcome{code: "exist"}, nil
 		}
 		return outcome{code: "ok"}, func(outcome) {
-			d.children[st.Name] = &mnode{kind: kindSymlink, target: st.Target}
+			r.put(d, st.Name, &mnode{kind: kindSymlink, target: st.Target})
 			r.noteMod(st)
 		}
 	case "remove":
@@ -604,7 +605,7 @@ func (r *rig) predict(st *step) (outcome, func(got outcome)) {
 			}
 		}
 		return outcome{code: "ok"}, func(outcome) {
-			delete(d.children, st.Name)
+			r.del(d, st.Name)
 			r.noteMod(st)
 			r.noteCASEntryEdit(c)
 		}
@@ -613,7 +614,7 @@ func (r *rig) predict(st *step) (outcome, func(got outcome)) {
 			return outcome{code: "noent"}, nil
 		}
 		return outcome{code: "ok"}, func(outcome) {
-			delete(d.children, st.Name)
+			r.del(d, st.Name)
 			r.noteMod(st)
 			r.noteCASEntryEdit(c)
 		}
@@ -622,15 +623,15 @@ func (r *rig) predict(st *step) (outcome, func(got outcome)) {
 		if !ok {
 			return io, nil
 		}
-		if c != nil && c.kind == kindDir && isPrefix(append(append([]string(nil), st.Path...), st.Name), st.Path2) {
+		if c != nil && c.kind == kindDir && r.isPrefix(append(append([]string(nil), st.Path...), st.Name), st.Path2) {
 			panic("harness bug: rename of a directory into its own subtree is not generated")
 		}
-		n := d2.children[st.Name2]
+		n := r.get(d2, st.Name2)
 		move := func(outcome) {
 			r.noteCASEntryEdit(c)
-			r.noteCASEntryEdit(d2.children[st.Name2])
-			delete(d.children, st.Name)
-			d2.children[st.Name2] = c
+			r.noteCASEntryEdit(n)
+			r.del(d, st.Name)
+			r.put(d2, st.Name2, c)
 			r.noteMod(st)
 		}
 		if c == nil {
@@ -687,12 +688,12 @@ func (r *rig) predict(st *step) (outcome, func(got outcome)) {
 		if !ok {
 			return io, nil
 		}
-		if d2.children[st.Name2] != nil {
+		if r.get(d2, st.Name2) != nil {
 			return outcome{code: "exist"}, nil
 		}
 		return outcome{code: "ok"}, func(outcome) {
 			cp := *c
-			d2.children[st.Name2] = &cp
+			r.put(d2, st.Name2, &cp)
 			r.noteMod(st)
 		}
 	}
@@ -722,6 +723,19 @@ func clip(s string) string {
 	return s
 }
 
+// safeReal turns a panic of the code under test into an outcome, so that
+// it is reported with the script like any other wrong answer. (The world
+// is unusable afterwards: a directory lock may still be held. The case
+// fails right away, so nothing else touches it.)
+func (r *rig) safeReal(st *step) (got outcome) {
+	defer func() {
+		if p := recover(); p != nil {
+			got = outcome{code: "panic", detail: fmt.Sprint(p)}
+		}
+	}()
+	return r.real(st)
+}
+
 // run executes one step on both sides and compares. A storage fault that
 // fires during the step must make it report an error and leave the tree
 // untouched; the step is then retried (faults are one-shot) and must give
@@ -742,7 +756,7 @@ func (r *rig) run(st *step) error {
 		return nil
 	}
 	c.resetFired()
-	got := r.real(st)
+	got := r.safeReal(st)
 	for attempt := 0; c.firedCount() > 0; attempt++ {
 		if got.code != "io" {
 			return fmt.Errorf("a storage fault fired during %+v, but the operation reported %q instead of an error", *st, got)
@@ -752,7 +766,7 @@ func (r *rig) run(st *step) error {
 		}
 		r.ioSeen++
 		c.resetFired()
-		got = r.real(st)
+		got = r.safeReal(st)
 		if c.firedCount() == 0 && got.code != "io" {
 			r.retriedOK++
 		}
@@ -768,6 +782,11 @@ func (r *rig) run(st *step) error {
 		r.badAccess++
 	} else if commit != nil {
 		commit(got)
+	}
+	if st.Op == "merge" && (got.code == "exist" || (got.code == "io" && r.badTmpl[r.spec.root()] == "case_collision")) {
+		// CreateChildren failed inside MergeDirectoryContents (EEXIST,
+		// or colliding names on a case insensitive mount).
+		r.mergeCollisions++
 	}
 	st.Res = clip(got.String())
 	return nil
